@@ -149,6 +149,8 @@ class Machine:
         self.inconclusive = []
         self.init_done = set()
         self.init_allowed = set()
+        self.spawn_limits = {}
+        self.cuts = set()
         self.skip_init = True
         self.map_perm = False
         self.live_cache = {}
@@ -1559,7 +1561,13 @@ def dispatch_call(m, alt, fr, ins, name, args, fv, work):
                 alt.info = (name, args)
                 return PARK
             alt.resume = False
-        r = f(m, alt, fr, ins, list(args) + list(fv), work)
+        try:
+            r = f(m, alt, fr, ins, list(args) + list(fv), work)
+        except _NeedSplitArg as e:
+            call = ins["call"]
+            ops = ([call["recv"]] if call["mode"] == "invoke" else []) + list(call["args"])
+            m.split_reg(alt, fr, ops[e.i], work)
+            raise
         if r is PARK or r is DEAD:
             return r
         if r is _PUSHED:
@@ -1740,6 +1748,12 @@ class _NeedSplit(Exception):
         self.i = i
 
 
+class _NeedSplitArg(Exception):
+    """an intrinsic needs argument i narrowed to one union alternative"""
+    def __init__(self, i):
+        self.i = i
+
+
 def do_builtin(m, alt, fr, ins, call, work):
     bname = call["fn"]
     args = [m.ev(alt, fr, a) for a in call["args"]]
@@ -1763,6 +1777,13 @@ def i_go(m, alt, fr, ins, work):
     site = ("go", fr.fn.name, fr.blk, fr.idx)
     n = alt.nalloc.get(site, 0) + 1
     alt.nalloc[site] = n
+    for pat, lim in m.spawn_limits.items():
+        if pat in fr.fn.name and n > lim:
+            # stated bound: this goroutine-spawning loop (a re-queue / retry path) is followed at most lim times
+            m.stats["cut_spawns"] = m.stats.get("cut_spawns", 0) + 1
+            m.cuts.add("go statement in %s executed more than %d times on one path" % (fr.fn.name, lim))
+            m.add_constraint(NOT(alt.guard))   # an assumption: such runs are outside the bound
+            return DEAD
     alt.nspawn += 1
     key = (alt.thread.tid, site, n)
     th = m.thread_by_key.get(key)
